@@ -150,3 +150,15 @@ def run(ctx):
     for _ in range(ctx.share(15000 if ctx.quick else 2000000)):
         run_case(ctx, {"string": rand_grammar(rng)})
         ctx.count("grammar_strings")
+    # long texts: escape sequences placed around typical buffer sizes
+    for _ in range(ctx.share(60 if ctx.quick else 3000)):
+        parts = []
+        for _ in range(rng.randint(1, 4)):
+            size = rng.choice([255, 256, 511, 512, 1020, 1022, 1023, 1024, 1025, 2047, 2048, 4095, 4096, 8192])
+            size += rng.randint(-4, 3)
+            parts.append("".join(rng.choice("ab \n") for _ in range(max(0, size))))
+            n = rng.choice([0, 1, 2])
+            parts.append("\x1b[" + ";".join(str(rng.choice(CODES)) for _ in range(n)) + "m")
+            parts.append(rng.choice(["x", "", "yz"]))
+        run_case(ctx, {"string": "".join(parts)})
+        ctx.count("long_grammar_strings")
